@@ -1,11 +1,14 @@
 #!/usr/bin/env bash
 # Run once after a fresh restore, offline. Builds the Kani dependency graph of the external
-# harness crate against /repo's current tree (the checks rebuild incrementally afterwards).
+# harness crate and the native table extractor against /repo's current tree (the checks rebuild
+# incrementally afterwards; everything lives under /verif/.work, nothing is fetched).
 set -euo pipefail
 cd "$(dirname "$0")"
 export CARGO_NET_OFFLINE=true
-mkdir -p .work/logs .work/replay evidence
+mkdir -p .work/logs .work/replay .work/generated evidence
+[ -f .work/replay/trust_lsp_tests.rs ] || echo "// no replay pending" > .work/replay/trust_lsp_tests.rs
 cp /repo/Cargo.lock kani/Cargo.lock
-cd kani
-CARGO_TARGET_DIR=/verif/.work/kani-target cargo kani --only-codegen --features c04 --harness c04::c04_ctu_trace_5 --exact >/verif/.work/logs/setup.log 2>&1 || { tail -50 /verif/.work/logs/setup.log; exit 1; }
+cp /repo/Cargo.lock extract/Cargo.lock
+( cd extract && CARGO_TARGET_DIR=/verif/.work/extract-target cargo build --offline -q ) >/verif/.work/logs/setup_extract.log 2>&1 || { tail -30 /verif/.work/logs/setup_extract.log; exit 1; }
+( cd kani && CARGO_TARGET_DIR=/verif/.work/kani-target cargo kani --only-codegen --features c04 --harness c04::c04_ctu_trace_5 --exact ) >/verif/.work/logs/setup.log 2>&1 || { tail -50 /verif/.work/logs/setup.log | cut -c1-300; exit 1; }
 echo "setup ok"
